@@ -58,7 +58,33 @@
     for the `before` kinds failed invocations leave the world ready too, so every
     invocation is covered (`C12_every_time_before_all`).  `C12_every_time` assumes
     `BodyKeepsInv` (a successful wrapped parser returns a well-formed lexer: part of
-    C06, shown here for `one k` in `C12_bodyKeepsInv_one`).
+    C06, shown here for `one k` in `C12_bodyKeepsInv_one` and for the whole fragment
+    `pegWithRep` in `C12_bodyKeepsInv_peg`, see the next item).
+  * `C12_every_time_peg` (4b, closed): `C12_every_time` with no assumption on the
+    wrapped parser other than membership in the fragment `pegWithRep` (primitives,
+    sequencing, alternatives, options, conditionals, implications, bounded
+    repetitions): `BodyKeepsInv` is discharged by `C12_bodyKeepsInv_peg` through the
+    refinement `rep_sim` of `run` to the reference evaluator (a successful run returns
+    a lexer related by `Abs`, which contains the lexer invariant).  The only extra
+    hypothesis is on the environment: the filter table is the harness table
+    (`PassOK`, as in C06/C07/C14 — the reference evaluator is defined with it).
+  * independence of the lexer's stored state (4c): the recover state stored in the
+    lexer a parser is *given* is not an input —
+    `C12_recover_state_blind`: for every grammar without `stabilize`, `list`, `probe`
+    (`recBlind`; `recover*` and `bracket*` included) the run on the same lexer with
+    any other stored recover state leaves the same world and fails with the same error
+    or succeeds with the same value and the same lexer up to the stored state;
+    `C12_blind_fragment_exact`: `stabilize` and `list` do read it (witnesses; `probe`
+    prints it), so the fragment cannot be enlarged by them;
+    `C12_own_token_whatever_state`: hence `recover*` around such a parser: identical
+    result (value, returned lexer, reports, flags) when the wrapped parser fails,
+    whatever state an earlier, different recovering combinator left in the lexer;
+    `C12_own_token_position`: for *any* wrapped parser that fails, the returned lexer
+    is peeked at this closure's recovery point in the view of the given lexer and is in
+    this closure's recovering state (`C12_recovered_state`);
+    `C12_sequence_two_recoveries`: `both(recover₁, right(mid, recover₂))` — the second
+    resumes at its own recovery point computed from where its wrapped parser started,
+    no stabilising parser in between, no hypothesis on the stored state.
   * `C12_finding_F07r` (5): without the flag hypothesis (3) is false: text `;`,
     `recover_option(one(a), recover_after(';'))`, sink, two invocations: the first
     returns the recovery error and leaves the flag set, the second returns
@@ -69,16 +95,19 @@
     recover state cleared.
 
   Lean: `Tephra.RecoverProof.*` (TephraProofs/RecoverProof.lean),
-  `Tephra.RecoverFrame.*` (TephraProofs/RecoverFrame.lean).  Unbounded in the text,
+  `Tephra.RecoverFrame.*` (TephraProofs/RecoverFrame.lean), `Tephra.RecoverSeq.*`
+  (TephraProofs/RecoverSeq.lean).  Unbounded in the text,
   the scanner, the filter, the wrapped parser (except where `Spec.supported` is
   stated), the world.
 -/
 import TephraModel.Run
 import TephraModel.Fam.Oracles
 import TephraProofs.RecoverProof
+import TephraProofs.RecoverSeq
 
 namespace Tephra.Props
-open Tephra Tephra.Spec Tephra.BracketRefine Tephra.LexIter Tephra.RecoverProof
+open Tephra Tephra.Spec Tephra.BracketRefine Tephra.LexIter Tephra.RecoverProof Tephra.RecoverSeq
+open Tephra.PegRefine (PassOK pegWithRep)
 open Tephra.Fam.Oracles (recPoint)
 open Tephra.RecoverFrame (specOf)
 
@@ -239,6 +268,142 @@ theorem C12_bodyKeepsInv_one {m : Metrics} {len : Nat} {f : Option Nat} (R : Run
     (k : Nat) : BodyKeepsInv R m len f (.one k) :=
   bodyKeepsInv_one R ok k
 
+/-! ### 4b: every time, for every wrapped parser of the PEG fragment -/
+
+/-- A successful run of a parser of the fragment `pegWithRep` returns a well-formed
+lexer on the same text with the same filter. -/
+theorem C12_bodyKeepsInv_peg {m : Metrics} {len : Nat} {f : Option Nat} (R : RunEnv) (ok : ScanOK R.E m len)
+    (hp : PassOK R.E) (a : G) (ha : pegWithRep a = true) : BodyKeepsInv R m len f a :=
+  bodyKeepsInv_peg R ok hp a ha
+
+/-- `k` invocations of the same `recover` node whose wrapped parser is *any* parser
+of the fragment `pegWithRep`: every invocation reached through invocations that left
+the world ready starts from a well-formed lexer in a ready world and does what (3)
+says for the view of the lexer it was given.  No hypothesis on the wrapped parser
+other than membership in the fragment. -/
+theorem C12_every_time_peg {m : Metrics} {len : Nat} {f : Option Nat} (R : RunEnv) (ok : ScanOK R.E m len)
+    (hp : PassOK R.E) (ctx : Ctx) (v id : Nat) (a : G) (r : Rec) (ha : pegWithRep a = true)
+    (k : Nat) (lx : Lx) (W : World) (inv : Inv R.E m len f lx) (hready : Ready id r W) :
+    Explained (Ready id r) (Step R m len f ctx v id a r (Fam.RunF.fuel - 2)) lx W
+      (Fam.RunF.invoke R (.recover v id a r) ctx k lx W).1 :=
+  invoke_explained_peg R ok hp ctx v id a r ha k lx W inv hready
+
+/-! ### 4c: independently of the state stored in the lexer -/
+
+/-- The recover state stored in the lexer a parser is given is not an input of any
+parser built without `stabilize`, `list`, `probe`: with any other stored state `rs`
+the world is the same, a failure is the same failure, a success has the same value
+and the same lexer up to the stored state (`PRq`, `Rq`). -/
+theorem C12_recover_state_blind (R : RunEnv) (n : Nat) (g : G) (lx : Lx) (rs : Option Nat) (ctx : Ctx) (W : World)
+    (hg : recBlind g = true) : PRq (run R n g lx ctx W) (run R n g (lx.setRecoverState rs) ctx W) :=
+  run_blind R n g lx rs ctx W hg
+
+/-- reading `PRq`: what the relation says, case by case -/
+theorem C12_PRq_reading {x y : RRes × World} (h : PRq x y) :
+    x.2 = y.2 ∧
+    (∀ e, x.1 = .err e → y.1 = .err e) ∧
+    (∀ v l, x.1 = .ok v l → ∃ l', y.1 = .ok v l' ∧ l.setRecoverState none = l'.setRecoverState none) ∧
+    (x.1 = .panic → y.1 = .panic) ∧ (x.1 = .fuel → y.1 = .fuel) := by
+  refine h.elim (fun v l r W hx hy => ?_) (fun e W hx hy => ?_) (fun W hx hy => ?_) (fun W hx hy => ?_) <;>
+    subst hx <;> subst hy <;> simp
+
+/-- The fragment is exact with respect to `stabilize` and `list`: both read the
+stored state of the lexer they are given (text `; a`, closure `recover_before(a)`
+registered: error without the stored state, success with it). -/
+theorem C12_blind_fragment_exact :
+    ¬ PRq (run Reads.R 6 (.stabilize (.one 0)) Reads.lx0 Reads.ctx1 Reads.W7)
+      (run Reads.R 6 (.stabilize (.one 0)) (Reads.lx0.setRecoverState (some 7)) Reads.ctx1 Reads.W7) ∧
+    ¬ PRq (run Reads.R 9 (.list 1 9 0 none (.one 0) 3 [8]) Reads.lx0 Reads.ctx0 Reads.W7)
+      (run Reads.R 9 (.list 1 9 0 none (.one 0) 3 [8]) (Reads.lx0.setRecoverState (some 7)) Reads.ctx0 Reads.W7) :=
+  ⟨Reads.not_blind_stabilize, Reads.not_blind_list⟩
+
+/-- **Own token, whatever state.**  `recover*(a, closure)` with `a` built without
+`stabilize`/`list`/`probe`, started on `lx` and on `lx` with any other stored recover
+state `rs` (e.g. the one an earlier, different recovering combinator left there):
+related results in general, and *identical* results — reported error, placeholder,
+returned lexer, flags — whenever the wrapped parser fails. -/
+theorem C12_own_token_whatever_state (R : RunEnv) (n v id : Nat) (a : G) (r : Rec) (lx : Lx) (rs : Option Nat)
+    (ctx : Ctx) (W : World) (ha : recBlind a = true) :
+    PRq (run R (n + 2) (.recover v id a r) lx ctx W) (run R (n + 2) (.recover v id a r) (lx.setRecoverState rs) ctx W) ∧
+    ((∀ v' l, (run R n (bodyOf v a) lx ctx (W.register id r)).1 ≠ .ok v' l) →
+      run R (n + 2) (.recover v id a r) (lx.setRecoverState rs) ctx W = run R (n + 2) (.recover v id a r) lx ctx W) :=
+  run_recover_own_token R n v id a r lx rs ctx W ha
+
+/-- the same for `recover_default` itself -/
+theorem C12_own_token_recover_default (R : RunEnv) (n : Nat) (dv : Val) (id : Nat) (r : Rec) (body : G) (lx : Lx)
+    (rs : Option Nat) (ctx : Ctx) (W : World) (hb : recBlind body = true) :
+    PRq (recoverDefault R (n + 1) dv id r body lx ctx W)
+      (recoverDefault R (n + 1) dv id r body (lx.setRecoverState rs) ctx W) ∧
+    ((∀ v l, (run R n body lx ctx (W.register id r)).1 ≠ .ok v l) →
+      recoverDefault R (n + 1) dv id r body (lx.setRecoverState rs) ctx W =
+        recoverDefault R (n + 1) dv id r body lx ctx W) :=
+  recoverDefault_own_token R n dv id r body lx rs ctx W hb
+
+/-- the combinator itself (any wrapped parser): if the wrapped parser does the same
+failing thing on both lexers, so does the combinator -/
+theorem C12_own_token_of_body (R : RunEnv) (n : Nat) (dv : Val) (id : Nat) (r : Rec) (body : G) (lx : Lx)
+    (rs : Option Nat) (ctx : Ctx) (W : World)
+    (hsame : run R n body (lx.setRecoverState rs) ctx (W.register id r) = run R n body lx ctx (W.register id r))
+    (hfail : ∀ v l, (run R n body lx ctx (W.register id r)).1 ≠ .ok v l) :
+    recoverDefault R (n + 1) dv id r body (lx.setRecoverState rs) ctx W =
+      recoverDefault R (n + 1) dv id r body lx ctx W :=
+  recoverDefault_own_token_of_body R n dv id r body lx rs ctx W hsame hfail
+
+/-- **Position form** (any wrapped parser): started on `lx` carrying any stored
+state `rs`, if the wrapped parser fails and a sink is installed, the lexer returned
+is peeked at *this* closure's recovery point in the view of `lx` (`K`, `j` do not
+depend on `rs`) and carries *this* closure's identity. -/
+theorem C12_own_token_position {m : Metrics} {len : Nat} {f : Option Nat} (R : RunEnv) (ok : ScanOK R.E m len)
+    {K : List (RawTok Tok)} {j : Nat} {lx : Lx} (hat : AtIdx R.E m len f K j lx) (rs : Option Nat)
+    (n : Nat) (dv : Val) (id : Nat) (r : Rec) (body : G) (ctx : Ctx) (W W1 : World) (e : PErr)
+    (hW : specOf W id = none ∨ specOf W id = some r)
+    (hbody : run R n body (lx.setRecoverState rs) ctx (W.register id r) = (.err e, W1))
+    (hflag : isBefore r = true ∨ FlagClear id W1) (hsink : ctx.sink = true) :
+    match recPoint r (K.drop j) with
+    | some p => ∃ lx', recoverDefault R (n + 1) dv id r body (lx.setRecoverState rs) ctx W =
+          (.ok dv lx', logged W1 ctx e) ∧
+        Peeked R.E m len f K (j + p) lx' ∧ lx'.recover = some id
+    | none => ∃ W', recoverDefault R (n + 1) dv id r body (lx.setRecoverState rs) ctx W = (.err ⟨[], .recover⟩, W') ∧
+        (W' = logged W1 ctx e ∨
+          (isAfter r = true ∧ W' = { logged W1 ctx e with found := id :: W1.found })) :=
+  recoverDefault_fail_sink_any_state R ok hat rs n dv id r body ctx W W1 e hW hbody hflag hsink
+
+/-- after a recovery the returned lexer is in the recovering state of this closure -/
+theorem C12_recovered_state (R : RunEnv) (n : Nat) (dv : Val) (id : Nat) (r : Rec) (body : G) (lx : Lx)
+    (ctx : Ctx) (W W1 : World) (e : PErr) (hbody : run R n body lx ctx (W.register id r) = (.err e, W1))
+    (v : Val) (lx' : Lx) (W' : World) (h : recoverDefault R (n + 1) dv id r body lx ctx W = (.ok v lx', W')) :
+    lx'.recover = some id :=
+  recoverDefault_recovered_state R n dv id r body lx ctx W W1 e hbody v lx' W' h
+
+/-- **Two recovering combinators in sequence**, `both(recover₁, right(mid, recover₂))`,
+sink installed.  The first returned `lx1` (after a recovery it is in the recovering
+state of closure `i1`), `mid` went from `lx1` to `lx2` (no stabilising parser, the
+state is whatever it is: no hypothesis on `lx2.recover`), the second wrapped parser
+fails from `lx2`.  Then the sequence reports that error once and returns the lexer
+peeked at the *second* closure's recovery point computed from where *its* wrapped
+parser started (`K`, `j2` describe `lx2`), in the second closure's recovering state;
+if there is no such point it fails with the recovery error. -/
+theorem C12_sequence_two_recoveries {m : Metrics} {len : Nat} {f : Option Nat} (R : RunEnv) (ok : ScanOK R.E m len)
+    {K : List (RawTok Tok)} {j2 : Nat} {lx lx1 lx2 : Lx} (n v1 i1 : Nat) (a1 : G) (r1 : Rec) (mid : G)
+    (v2 i2 : Nat) (a2 : G) (r2 : Rec) (ctx : Ctx) (W W1 W2 W3 : World) (d1 vm : Val) (e2 : PErr)
+    (hsink : ctx.sink = true)
+    (h1 : run R (n + 4) (.recover v1 i1 a1 r1) lx ctx W = (.ok d1 lx1, W1))
+    (hmid : run R (n + 2) mid lx1 ctx W1 = (.ok vm lx2, W2))
+    (hat2 : AtIdx R.E m len f K j2 lx2)
+    (hW : specOf W2 i2 = none ∨ specOf W2 i2 = some r2)
+    (hbody2 : run R n (bodyOf v2 a2) lx2 ctx (W2.register i2 r2) = (.err e2, W3))
+    (hflag : isBefore r2 = true ∨ FlagClear i2 W3) :
+    match recPoint r2 (K.drop j2) with
+    | some p => ∃ lx',
+        run R (n + 5) (.both (.recover v1 i1 a1 r1) (.right mid (.recover v2 i2 a2 r2))) lx ctx W =
+          (.ok (.pair d1 (dvOf v2)) lx', logged W3 ctx e2) ∧
+        Peeked R.E m len f K (j2 + p) lx' ∧ lx'.recover = some i2
+    | none => ∃ W',
+        run R (n + 5) (.both (.recover v1 i1 a1 r1) (.right mid (.recover v2 i2 a2 r2))) lx ctx W =
+          (.err ⟨[], .recover⟩, W') ∧
+        (W' = logged W3 ctx e2 ∨ (isAfter r2 = true ∧ W' = { logged W3 ctx e2 with found := i2 :: W3.found })) :=
+  sequence_two_recoveries R ok n v1 i1 a1 r1 mid v2 i2 a2 r2 ctx W W1 W2 W3 d1 vm e2 hsink h1 hmid hat2 hW hbody2 hflag
+
 /-! ### 5: finding F07r -/
 
 /-- The statement of (3) without the flag hypothesis is false. -/
@@ -316,6 +481,50 @@ example (id : Nat) (r : Rec) : Ready id r World.init :=
 hypotheses (flag clear) and its `none` branch is what happens. -/
 example : recoverDefault F07r.R 3 .none 7 (.after 5) F07r.body F07r.lx0 F07r.ctx0 World.init
     = (.err ⟨[], .recover⟩, F07r.W1) := F07r.first_rd 0
+
+/-! 4b: a composite wrapped parser.  Text `a b` (kinds 0 12 1, harness filter table),
+`recover(both(one(b), maybe(one(a))), recover_before(b))`, sink, two invocations. -/
+
+/-- all hypotheses of `C12_every_time_peg` hold: the theorem applies -/
+example : Explained (Ready 7 (.before 1))
+    (Step PegRefine.Witness.RW PegRefine.Witness.mW 3 none Comp.ctx1 1 7 Comp.bodyC (.before 1) (Fam.RunF.fuel - 2))
+    Comp.lxN World.init (Fam.RunF.invoke PegRefine.Witness.RW Comp.gC Comp.ctx1 2 Comp.lxN World.init).1 :=
+  C12_every_time_peg PegRefine.Witness.RW PegRefine.Witness.scanW_ok PegRefine.Witness.passW Comp.ctx1 1 7
+    Comp.bodyC (.before 1) Comp.body_in_fragment 2 Comp.lxN World.init (inv_fresh 0 none) ⟨Or.inl rfl, Or.inl rfl⟩
+
+/-- … and this is what happens: the first invocation's wrapped parser fails (one
+report, placeholder, lexer peeked at `b` = index 2 of the view), the second one's
+succeeds as a composite -/
+example : Fam.RunF.invoke PegRefine.Witness.RW Comp.gC Comp.ctx1 2 Comp.lxN World.init =
+    ([.ok .dflt Comp.lxB, .ok (.pair (.tok ⟨1, 0⟩) .none) Comp.lxE], Comp.WC) ∧
+    Comp.lxB.peekTokenSpan = some ⟨⟨2, 0, 2⟩, ⟨3, 0, 3⟩⟩ :=
+  ⟨Comp.twice, by simp [Comp.lxB, Lexer.peekTokenSpan, Span.enclosing]⟩
+
+/-! 4c: text `a ; b , c` (kinds 0 5 1 6 2),
+`both(recover(one(x), before(';')), right(one(';'), recover(one(x), before(','))))`. -/
+
+/-- the hypotheses of `C12_sequence_two_recoveries` hold, `lx2` *is* in the recovering
+state of the first closure, and the conclusion is: resumed at `,` (index 3 = 2 + 1),
+in the state of the second closure — although from index 2 the first closure has no
+recovery point at all -/
+example : Seq2.lx1.recover = some 7 ∧ Seq2.lx2.recover = some 7 ∧
+    recPoint (.before 5) (Seq2.K.drop 2) = none ∧
+    ∃ lx', run Seq2.R 6 Seq2.g Seq2.lx0 Seq2.ctx1 World.init =
+        (.ok (.pair .dflt .dflt) lx', logged (Seq2.W1.register 8 (.before 6)) Seq2.ctx1 Seq2.e2) ∧
+      Peeked Seq2.R.E Seq2.m0 5 none Seq2.K 3 lx' ∧ lx'.recover = some 8 := by
+  refine ⟨rfl, rfl, Seq2.point1, ?_⟩
+  have := C12_sequence_two_recoveries Seq2.R Seq2.ok0 1 1 7 (.one 9) (.before 5) (.one 5) 1 8 (.one 9) (.before 6)
+    Seq2.ctx1 World.init Seq2.W1 Seq2.W1 _ .dflt _ Seq2.e2 rfl (Seq2.h1 1) (Seq2.hmid 1) Seq2.hat2
+    (Or.inl Seq2.spec2) (Seq2.hbody2 0) (Or.inl rfl)
+  rw [Seq2.point2] at this
+  exact this
+
+/-- own token whatever state, instantiated: the second combinator of the sequence
+started on `lx2` (state of closure 7) and on `lx2` with the state cleared -/
+example : run Seq2.R 4 Seq2.rec2 (Seq2.lx2.setRecoverState none) Seq2.ctx1 Seq2.W1 =
+    run Seq2.R 4 Seq2.rec2 Seq2.lx2 Seq2.ctx1 Seq2.W1 :=
+  (C12_own_token_whatever_state Seq2.R 2 1 8 (.one 9) (.before 6) Seq2.lx2 none Seq2.ctx1 Seq2.W1 rfl).2
+    (by rw [Seq2.hbody2 1]; intro v l h; cases h)
 
 end NonVacuity
 
